@@ -301,7 +301,7 @@ class Ribosome:
         sequence = self._process_variables(sequence, context, warnings)
 
         # All passes done: give substituted text its literal braces back
-        sequence = sequence.replace(self._ESCAPED_OPEN, "{{")
+        sequence = sequence.replace(self._ESCAPED_OPEN, "{")
 
         return Protein(
             sequence=sequence,
@@ -311,11 +311,13 @@ class Ribosome:
         )
 
     # Substituted text (values, loop items, defaults, included renderings) is data:
-    # its '{{' is hidden from the later passes and restored at the end of translate().
-    _ESCAPED_OPEN = "{\x00{"
+    # every '{' in it is hidden from the later passes and restored at the end of
+    # translate(). Each brace is marked on its own, so overlapping runs such as
+    # '{{{name}}' cannot leave a live '{{' behind.
+    _ESCAPED_OPEN = "{\x00"
 
     def _verbatim(self, value: Any) -> str:
-        return str(value).replace("{{", self._ESCAPED_OPEN)
+        return str(value).replace("{", self._ESCAPED_OPEN)
 
     def synthesize(self, sequence: str, **context: Any) -> Protein:
         """
